@@ -69,6 +69,7 @@ CHECKERS = {
         ("checkGlvDecompRows", "decomp_rows", ["r", "lambda", "scalar_decomp_coeffs"]),
         ("checkGlvDet", "decomp_det", ["r", "scalar_decomp_coeffs"]),
         ("checkGlvDecompShort", "decomp_short", ["r", "scalar_decomp_coeffs"]),
+        ("checkGlvLadderBound", "ladder_bound", ["r", "scalar_decomp_coeffs"]),
     ]),
     "swu": ("SwuCfg", [
         ("checkSwuZeta", "zeta", ["tower", "zeta"]),
@@ -81,6 +82,8 @@ CHECKERS = {
                                                     "y_map_numerator", "y_map_denominator"]),
         ("checkWbImageOrder", "image_order", ["tower", "a", "b", "r", "iso", "x_map_numerator", "x_map_denominator",
                                               "y_map_numerator", "y_map_denominator"]),
+        ("checkWbIsoIdentity", "iso_identity", ["tower", "a", "b", "iso", "x_map_numerator", "x_map_denominator",
+                                                "y_map_numerator", "y_map_denominator"]),
     ]),
     "te": ("TeCfg", [
         ("checkTeShape", "shape", ["tower", "r", "a", "d", "gx", "gy", "cofactor", "cofactor_limbs", "cofactor_inv"]),
@@ -708,7 +711,59 @@ def py_check(checker, o):
             return r_
         return {"holds": pw(z, 2 ** s) == [1, 0, 0] and pw(z, 2 ** (s - 1)) != [1, 0, 0],
                 "z^(2^s)": [str(x) for x in pw(z, 2 ** s)], "z^(2^(s-1))": [str(x) for x in pw(z, 2 ** (s - 1))]}
+    if checker == "checkWbIsoIdentity":
+        return py_wb_iso_identity(o)
     return "no Python mirror for this checker"
+
+
+def py_wb_iso_identity(o):
+    """(X^3 + a'X + b')·yNum^2·xDen^3 == yDen^2·(xNum^3 + a·xNum·xDen^2 + b·xDen^3) as polynomials over
+    F_p or F_p[u]/(u^2 - nr); reports the first differing coefficient (degree, lhs, rhs)"""
+    tw = o["tower"]
+    if "p" in tw:
+        p, nr, d = int(tw["p"]), None, 1
+    elif tw.get("k") == 2 and "p" in tw["base"]:
+        p, nr, d = int(tw["base"]["p"]), int(tw["nr"][0]), 2
+    else:
+        return "no Python mirror for this tower"
+    E = lambda v: tuple(int(x) % p for x in v)
+    zero, one = (0,) * d, (1,) + (0,) * (d - 1)
+    add = lambda a, b: tuple((x + y) % p for x, y in zip(a, b))
+    if d == 1:
+        mul = lambda a, b: ((a[0] * b[0]) % p,)
+    else:
+        mul = lambda a, b: ((a[0] * b[0] + nr * a[1] * b[1]) % p, (a[0] * b[1] + a[1] * b[0]) % p)
+    def padd(f, g):
+        n = max(len(f), len(g))
+        f, g = f + [zero] * (n - len(f)), g + [zero] * (n - len(g))
+        return [add(x, y) for x, y in zip(f, g)]
+    def pmul(f, g):
+        if not f or not g:
+            return []
+        r = [zero] * (len(f) + len(g) - 1)
+        for i, x in enumerate(f):
+            for j, y in enumerate(g):
+                r[i + j] = add(r[i + j], mul(x, y))
+        return r
+    def norm(f):
+        f = list(f)
+        while f and f[-1] == zero:
+            f.pop()
+        return f
+    P = lambda k: [E(v) for v in o[k]]
+    xn, xd, yn, yd = P("x_map_numerator"), P("x_map_denominator"), P("y_map_numerator"), P("y_map_denominator")
+    a1, b1, a, b = E(o["iso"]["a"]), E(o["iso"]["b"]), E(o["a"]), E(o["b"])
+    xd2 = pmul(xd, xd); xd3 = pmul(xd2, xd)
+    lhs = norm(pmul(pmul([b1, a1, zero, one], pmul(yn, yn)), xd3))
+    rhs = norm(pmul(pmul(yd, yd), padd(padd(pmul(xn, pmul(xn, xn)), pmul([a], pmul(xn, xd2))), pmul([b], xd3))))
+    res = {"holds": lhs == rhs, "deg lhs": len(lhs) - 1, "deg rhs": len(rhs) - 1}
+    for i in range(max(len(lhs), len(rhs))):
+        l = lhs[i] if i < len(lhs) else zero
+        r = rhs[i] if i < len(rhs) else zero
+        if l != r:
+            res["first differing coefficient"] = {"degree": i, "lhs": [str(x) for x in l], "rhs": [str(x) for x in r]}
+            break
+    return res
 
 
 if __name__ == "__main__":
